@@ -67,11 +67,22 @@ type dayAcc struct {
 	nPesum, nNfixsum, nAufna1                           float64
 	nAkf                                                int
 	nUnstable, nUnstableEarly                           bool
+	nDsumm                                              float64
 }
 
 var prevDayEndC1 = math.NaN()
 var prevDayEndCnt [3]float64
-var unstableDays, unstableEarlyDays int
+var unstableDays, unstableEarlyDays, laterSubstepNitroCalls int
+var bookPre [5]float64
+
+func bookSums(g *hermes.GlobalVarsMain) [5]float64 {
+	var a, b float64
+	for z := 0; z < len(g.NFOS); z++ {
+		a += g.NFOS[z] + g.MINFOS[z]
+		b += g.NAOS[z] + g.MINAOS[z]
+	}
+	return [5]float64{a, b, g.DSUMM, g.NH4Sum, g.NFERTSIM}
+}
 var prevDayEndZeit = -1
 var prevDayEndStorage = math.NaN()
 var prevDayEndGRW = math.NaN()
@@ -184,7 +195,7 @@ func traceLine(work, line string, lineNo int, r *rng, waterEvery int) {
 			}
 			gwfcPrevZeit, gwfcPrevGRW = zeit, g.GRW
 			c1, minp, minC1 := nsum(g)
-			nday = dayAcc{nC1: c1, nAufna: g.AUFNASUM, nMin: minp, nUms: g.UMS, nN2o: g.N2onitsum, nOut: g.OUTSUM, nDrain: g.DRAINLOSS, nDenit: g.CUMDENIT, nMinC1: minC1, nPesum: g.PESUM, nNfixsum: g.NFIXSUM, nAkf: g.AKF.Index}
+			nday = dayAcc{nDsumm: g.DSUMM, nC1: c1, nAufna: g.AUFNASUM, nMin: minp, nUms: g.UMS, nN2o: g.N2onitsum, nOut: g.OUTSUM, nDrain: g.DRAINLOSS, nDenit: g.CUMDENIT, nMinC1: minC1, nPesum: g.PESUM, nNfixsum: g.NFIXSUM, nAkf: g.AKF.Index}
 			// deposition / irrigation N since yesterday's end of day (C02)
 			meas := false
 			for _, m := range g.MESS {
@@ -236,6 +247,7 @@ func traceLine(work, line string, lineNo int, r *rng, waterEvery int) {
 			if subd == 1 {
 				nday.nPesum, nday.nAufna1 = g.PESUM, g.AUFNASUM
 			}
+			bookPre = bookSums(g)
 			if nitroEvery > 0 && (r.intn(nitroEvery) == 0 || (subd > 1 && r.intn(3) == 0)) {
 				gg, ll := *g, *n
 				if subd == 1 {
@@ -256,6 +268,21 @@ func traceLine(work, line string, lineNo int, r *rng, waterEvery int) {
 				if dP >= -1e-12 && math.Abs(dP-dA-want) > 1e-9*(1+math.Abs(g.PESUM)) {
 					oracleFail("crop-n-credit line=%d zeit=%d crop-n-gain=%v uptake-counter-gain=%v fixation-of-the-day=%v legume=%v", lineNo, zeit, dP, dA, want, g.LEGUM)
 				}
+			}
+			// C07 "organic and fertiliser bookkeeping exact ... regardless of how many sub-steps the day is split into":
+			// fertiliser (manual, automatic, organic after harvest / sowing), residues and tillage are booked on sub-step 1;
+			// over the Nitro call of a LATER sub-step the pool + counter sums, applied fertiliser, applied ammonium and the
+			// simulated-fertiliser total do not move
+			if subd > 1 {
+				bp := bookSums(g)
+				for bi := range bp {
+					if math.Abs(bp[bi]-bookPre[bi]) > 1e-9*(1+math.Abs(bookPre[bi])) {
+						oracleFail("booked-in-later-substep line=%d zeit=%d subd=%d what=%s before=%v after=%v", lineNo, zeit, subd,
+							[]string{"NFOS+MINFOS", "NAOS+MINAOS", "DSUMM", "NH4Sum", "NFERTSIM"}[bi], bookPre[bi], bp[bi])
+						break
+					}
+				}
+				laterSubstepNitroCalls++
 			}
 			if g.C1NotStable != "" {
 				nday.nUnstable = true
@@ -362,6 +389,10 @@ func traceLine(work, line string, lineNo int, r *rng, waterEvery int) {
 				if !day.excluded && g.UMS < nday.nUms-1e-9*(1+math.Abs(nday.nUms)) {
 					oracleFail("negative-dissolution line=%d zeit=%d ums-before=%v ums-after=%v dsumm=%v", lineNo, zeit, nday.nUms, g.UMS, g.DSUMM)
 				}
+				// C07: fertiliser applied is a cumulative total: it does not go down on an ordinary day
+				if !day.excluded && g.DSUMM < nday.nDsumm-1e-9*(1+math.Abs(nday.nDsumm)) {
+					oracleFail("applied-fertiliser-decreases line=%d zeit=%d before=%v after=%v autofert=%v", lineNo, zeit, nday.nDsumm, g.DSUMM, g.AUTOFERT)
+				}
 				// C07: dissolved fertiliser never exceeds fertiliser applied (also across measurement-overwrite days)
 				if g.UMS > g.DSUMM+1e-9*(1+math.Abs(g.DSUMM)) || g.UMS < -1e-9 {
 					oracleFail("dissolved-exceeds-applied line=%d zeit=%d ums=%v dsumm=%v", lineNo, zeit, g.UMS, g.DSUMM)
@@ -419,5 +450,5 @@ func traceLine(work, line string, lineNo int, r *rng, waterEvery int) {
 	}
 	res := runProject(work, splitArgs(line))
 	hermes.VerifProbe = nil
-	emit(jobj{"k": "run", "line": lineNo, "success": res.Success, "err": res.Err, "days": days, "substeps": sub, "file_irrigations_checked": irrSeen, "unstable_days": unstableDays, "unstable_early_days": unstableEarlyDays})
+	emit(jobj{"k": "run", "line": lineNo, "success": res.Success, "err": res.Err, "days": days, "substeps": sub, "file_irrigations_checked": irrSeen, "later_substep_nitro_calls": laterSubstepNitroCalls, "unstable_days": unstableDays, "unstable_early_days": unstableEarlyDays})
 }
